@@ -6,6 +6,7 @@ require (
 	github.com/titpetric/vuego v0.0.0
 	github.com/yuin/goldmark v1.7.16
 	golang.org/x/net v0.51.0
+	gopkg.in/yaml.v3 v3.0.1
 )
 
 require (
@@ -16,7 +17,6 @@ require (
 	github.com/stretchr/testify v1.11.1 // indirect
 	github.com/titpetric/lessgo v0.1.0 // indirect
 	github.com/titpetric/platform v0.2.3 // indirect
-	gopkg.in/yaml.v3 v3.0.1 // indirect
 )
 
 replace github.com/titpetric/vuego => /repo
